@@ -25,6 +25,7 @@ pub mod model;
 pub mod common;
 pub mod aftermath;
 pub mod context;
+pub mod soak;
 
 pub fn build(id: &str, tier: &str) -> Option<Check> {
     let quick = crate::engine::tier_is_quick(tier);
